@@ -122,8 +122,9 @@ def flags(rep, ex: Explorer):
                     env.update(zip(free, vals))
                     pfb = env[("partfalse", ("part", b.pid))]
                     pfc = env[("partfalse", ("part", c.pid))] if c is not None else None
-                    for sb in (0, 1, 2):
-                        for sc in ((0, 1, 2) if c is not None else (0,)):
+                    from .. import depth as _depth
+                    for sb in _depth.card_range():
+                        for sc in (_depth.card_range() if c is not None else (0,)):
                             sizes = {lb: sb}
                             if lc is not None:
                                 sizes[lc] = sc
